@@ -233,7 +233,7 @@ def run(ctx):
 
     # ---- (b) differential event replays
     targets = []
-    n_t = 3 if quick else 10
+    n_t = 3 if quick else 30
     for k in range(n_t):
         prob = "mock" if k % 3 != 2 else "simple"
         slots = ctx.rng.choice([1, 2, 3, 5, 8, 13, 32])
@@ -244,7 +244,7 @@ def run(ctx):
         base = "prob=%s slots=%d prims=%d" % (prob, slots, prims)
         tgt = "e%d:%d" % (tid, seed)
         jobs.append((ti, "reindex", base + " order=none", [tgt]))                 # reference
-        n_var = 8 if quick else 24
+        n_var = 8 if quick else 30
         for v in range(n_var):
             order = REINDEX[v % len(REINDEX)] if v < len(REINDEX) else ctx.rng.choice(REINDEX)
             cfg = base + " order=%s timing=%d checker=%d" % (order, ctx.rng.below(2), ctx.rng.below(2))
